@@ -77,10 +77,22 @@ def bounded_json(tier, seed):
         # structural equality: any single difference makes the trees unequal
         all_nodes = list(nodes(back))
         victim = rng.choice(all_nodes)
-        field = rng.choice(["type", "value", "obfuscation", "start", "end", "drop-last-child", "add-child"])
+        field = rng.choice(["type", "value", "obfuscation", "start", "end", "drop-last-child", "add-child", "re-nest", "re-nest"])
+        if field == "re-nest":
+            # same nodes in the same pre-order, different shape: the last child becomes the last grandchild (or the other way round)
+            cand = [p for p in all_nodes if len(p.children) >= 2]
+            if cand:
+                p_ = rng.choice(cand)
+                moved = p_.children.pop()
+                p_.children[-1].children.append(moved)
+                moved.parent = p_.children[-1]
+            else:
+                field = "add-child"
         if field == "drop-last-child" and not victim.children:
             field = "add-child"
-        if field == "add-child":
+        if field == "re-nest":
+            pass
+        elif field == "add-child":
             victim.children.append(Node("zz", b"", "", 0, 0, parent=victim))
         elif field == "drop-last-child":
             victim.children.pop()
@@ -92,7 +104,7 @@ def bounded_json(tier, seed):
             setattr(victim, field, getattr(victim, field) + "x")
         if back == t or t == back:
             fail(f"equality is not structural ({field})", {"tree": repr(tt), "field": field}, f"trees differing in `{field}` of one node compare equal")
-    return {"evaluations": n, "distinct_nontrivial": len(distinct), "scope": "seeded random trees, depth <= 4, values over all 256 bytes, non-ASCII labels; one random single-field / child-list difference per tree", "failures": failures,
+    return {"evaluations": n, "distinct_nontrivial": len(distinct), "scope": "seeded random trees, depth <= 4, values over all 256 bytes, non-ASCII labels; one random single-field / child-list / nesting difference per tree", "failures": failures,
             "samples": [{"tree": "('', b'ab', '', 0, 2, (('x', b'a', '', 0, 1, ()),))"}]}
 
 
